@@ -651,7 +651,7 @@ fn gen_history_pair(rng: &mut Rng, density: f64) -> (JobSpec, JobSpec) {
         j
     };
     let y = yields(rng, density);
-    let which = rng.below(11);
+    let which = rng.below(13);
     let (a, b) = match which {
         0 => {
             // a built-in module's variable assigned through a plain @forward of that module
@@ -729,6 +729,46 @@ fn gen_history_pair(rng: &mut Rng, density: f64) -> (JobSpec, JobSpec) {
             second.compressed = !first.compressed;
             second.unicode = if rng.chance(0.7) { !first.unicode } else { first.unicode };
             second.charset = if rng.chance(0.7) { !first.charset } else { first.charset };
+            (first, second)
+        }
+        11 | 12 => {
+            // two programs of the same SHAPE with other names: every selector, property, value,
+            // number and callable name sits at the same byte offsets and has the same length, only
+            // the letters differ. Anything memoised under a key that looks unique within one
+            // compilation but repeats across compilations (a span, an offset, a statement index,
+            // the address of a per-compilation object that the next compilation reuses) hands the
+            // second program what belonged to the first. The first one often ends in an error
+            // after most of it was evaluated: clean-up code on the success path has not run then.
+            let ss = ["old", "new", "foo", "bar", "baz", "qux"];
+            let ps = ["color", "width", "order", "float", "clear"];
+            let vs = ["red", "tan", "1px", "2em", "4pt"];
+            let ns = ["100", "250", "480", "999"];
+            let cs = ["mix-a", "mix-b", "fn-cc", "fn-dd"];
+            let mut pick3 = |rng: &mut Rng, pool: &[&str]| -> Vec<String> {
+                let mut v: Vec<String> = pool.iter().map(|s| s.to_string()).collect();
+                rng.shuffle(&mut v);
+                v.truncate(3);
+                v
+            };
+            let shape = |s: &[String], p: &[String], v: &[String], n: &[String], c: &[String], y: &str| -> String {
+                format!(
+                    ".{s0} {{ {p0}: {v0}; .{s1} {{ {p1}: {v1}; }} }}\n%{s2} {{ {p0}: {v1}; }}\n.{s1}-x {{ @extend %{s2}; }}\n@media (min-width: {n0}px) {{ .{s0} {{ {p1}: {v0}; }} }}\n@mixin {c0}($a) {{ .{s2} {{ {p0}: $a; }} }}\n@include {c0}({v1});\n{y}$map: ({s0}: {v0}, {s1}: {v1});\n@each $k, $v in $map {{ .k-#{{$k}} {{ {p0}: $v; }} }}\n@function {c1}($x) {{ @return $x * {n1}; }}\n.{s1} {{ height: {c1}(2px); content: \"{s2}\"; }}\n@debug {s0} {v1};\n",
+                    s0 = s[0], s1 = s[1], s2 = s[2], p0 = p[0], p1 = p[1], v0 = v[0], v1 = v[1], n0 = n[0], n1 = n[1], c0 = c[0], c1 = c[1], y = y
+                )
+            };
+            let (s1, p1, v1, n1, c1) = (pick3(rng, &ss), pick3(rng, &ps), pick3(rng, &vs), pick3(rng, &ns), pick3(rng, &cs));
+            let (s2, p2, v2, n2, c2) = (pick3(rng, &ss), pick3(rng, &ps), pick3(rng, &vs), pick3(rng, &ns), pick3(rng, &cs));
+            let tails = ["@error \"stop\";\n", ".zz { a: $undefined; }\n", "@include nonexistent;\n", ".zz { a: 1px + 1s; }\n", ".zz { @extend .missing; }\n", "", ""];
+            let tail = *rng.pick(&tails);
+            let first = mk("pair11:first", vec![], Err(format!("{}{}", shape(&s1, &p1, &v1, &n1, &c1, &y), tail)));
+            // the second: other names (or, one time in four, the very same text without the failing tail)
+            let second_text = if rng.chance(0.25) { shape(&s1, &p1, &v1, &n1, &c1, &y) } else { shape(&s2, &p2, &v2, &n2, &c2, &y) };
+            let mut second = mk("pair11:second", vec![], Err(second_text));
+            if which == 12 {
+                // ... and once more as plain CSS: same bytes, other parser (a plain-CSS parse of this
+                // text fails; the error has to be the one a fresh thread reports)
+                second.input_syntax = Some("css".into());
+            }
             (first, second)
         }
         _ => {
